@@ -2,7 +2,7 @@ HOOK_COMMITS = []
 ENGINES = [
     {"name": "runner", "path": "vlib/runner.py", "serves_properties": ["C01"], "kind_free_text": "Hypothesis driver: seeded workers, collect-then-shrink per root-cause key, plain-JSON replay, evidence"},
     {"name": "E1 refcodec", "path": "vlib/refcodec.py", "serves_properties": ["C01","C02","C03"], "kind_free_text": "independent RFC 7252 section 3 codec used as differential oracle and by the raw peers"},
-    {"name": "E2 simnet", "path": "vlib/simnet.py", "serves_properties": ["C02", "C03"], "kind_free_text": "virtual-clock asyncio loop + simulated datagram network under the real aiocoap stack; scripted raw peers; per-datagram fates"},
+    {"name": "E2 simnet", "path": "vlib/simnet.py", "serves_properties": ["C02", "C03", "C04", "C10", "C14"], "kind_free_text": "virtual-clock asyncio loop + simulated datagram network under the real aiocoap stack; scripted raw peers; per-datagram fates"},
 ]
 ALL = ["C%02d" % i for i in range(1, 21)]
 CHECKS = [
@@ -25,6 +25,26 @@ CHECKS += [
         "technique": "exhaustive enumeration of a finite grid of loss/reply faults plus property-based sampling of tunings, reply plans and datagram fates on a virtual clock; timing oracle over wire timestamps",
         "text": "The retransmission schedule is read off the simulated wire with exact virtual timestamps: the grid (6 tunings x reply at copy k x 8 reply kinds x 3 delay positions x reply lost) is enumerated completely, continuous parameters are sampled.",
         "note": "trusted: vlib/simnet.py virtual clock (timer order and times are those of asyncio's scheduler), refcodec",
+    },
+]
+CHECKS += [
+    {
+        "id": "C04", "engine": "E2 simnet + Hypothesis", "level": "exploration",
+        "technique": "property-based testing of duplicate-arrival schedules on a virtual clock; oracle over handler-invocation log and byte comparison of repeated ACKs",
+        "text": "Copies of request datagrams arrive at generated offsets (incl. both sides of EMPTY_ACK_DELAY and EXCHANGE_LIFETIME) from peers that collide on message IDs, also with the server's own MID counter; the oracle counts handler invocations per lifetime window and compares every reaction to a duplicate byte-for-byte with the ACK sent before. Sampled schedules.",
+        "note": "trusted: vlib/simnet.py, refcodec, Hypothesis",
+    },
+    {
+        "id": "C10", "engine": "E2 simnet + exhaustive table + Hypothesis", "level": "exploration",
+        "technique": "exhaustive enumeration of the type x code x token x multicast x handler x No-Response reaction table plus property-based message sequences; RFC 7252 section 4 reaction-table oracle on wire timestamps",
+        "text": "Every cell of the message-layer reaction table is exercised with a raw datagram against the real stack and the reaction read off the wire with virtual timestamps (exhaustive for the table); generated sequences check that rows do not interfere.",
+        "note": "trusted: vlib/simnet.py, refcodec; No-Response suppression is only demanded for messages returned by handlers (documented mechanism), see DESIGN.md",
+    },
+    {
+        "id": "C14", "engine": "E2 simnet + Hypothesis", "level": "exploration",
+        "technique": "property-based testing of submission/ACK/RST/timeout/error interleavings on a virtual clock against a per-remote FIFO queue model",
+        "text": "Generated submissions (client CON/NON requests and server-role CON separate responses) to several remotes with generated exchange outcomes; a queue model over exact wire timestamps decides non-overlap, FIFO order, prompt release and that nothing is forgotten. Sampled interleavings.",
+        "note": "trusted: vlib/simnet.py, refcodec; give-up instants computed from the tuning with ACK_RANDOM_FACTOR=1",
     },
 ]
 claimed = {c["id"] for c in CHECKS}
